@@ -52,7 +52,10 @@ pub(crate) struct File {
 #[derive(Debug)]
 struct FileInner {
     std_file: StdFile,
+    /// End of the last reserved range: advanced when an append reserves its range, before the bytes are written
     size: AtomicU64,
+    /// Bytes whose write has completed: a sync that starts after this value was read covers all of them
+    written_size: AtomicU64,
     synced_size: AtomicU64
 }
 
@@ -70,8 +73,13 @@ impl File {
     pub(crate) fn synced_size(&self) -> u64 {
         self.inner.synced_size.load(Ordering::SeqCst)
     }
+    pub(crate) fn written_size(&self) -> u64 {
+        self.inner.written_size.load(Ordering::SeqCst)
+    }
     pub(crate) fn dirty_bytes(&self) -> u64 {
-        self.size() - self.synced_size()
+        // synced_size is read first: it never exceeds a later value of written_size
+        let synced_size = self.synced_size();
+        self.written_size() - synced_size
     }
 
     pub(crate) async fn write_append_writable_data<R: Send + 'static>(
@@ -85,6 +93,7 @@ impl File {
                 let offset = file_inner.size.fetch_add(len, Ordering::SeqCst);
                 let (res, data) = c.create(offset);
                 Self::write_data(&file_inner.std_file, offset, res)?;
+                file_inner.written_size.fetch_add(len, Ordering::SeqCst);
                 Ok(data)
             })
         } else {
@@ -92,6 +101,7 @@ impl File {
                 let offset = file_inner.size.fetch_add(len, Ordering::SeqCst);
                 let (res, data) = c.create(offset);
                 Self::write_data(&file_inner.std_file, offset, res)?;
+                file_inner.written_size.fetch_add(len, Ordering::SeqCst);
                 Ok(data)
             })
             .await
@@ -113,12 +123,16 @@ impl File {
         if Self::can_run_inplace(buf.len() as u64) {
             Self::inplace_sync_call(move || {
                 let offset = file_inner.size.fetch_add(buf.len() as u64, Ordering::SeqCst);
-                file_inner.std_file.write_all_at(&buf, offset)
+                file_inner.std_file.write_all_at(&buf, offset)?;
+                file_inner.written_size.fetch_add(buf.len() as u64, Ordering::SeqCst);
+                Ok(())
             })
         } else {
             Self::background_sync_call(move || {
                 let offset = file_inner.size.fetch_add(buf.len() as u64, Ordering::SeqCst);
-                file_inner.std_file.write_all_at(&buf, offset)
+                file_inner.std_file.write_all_at(&buf, offset)?;
+                file_inner.written_size.fetch_add(buf.len() as u64, Ordering::SeqCst);
+                Ok(())
             })
             .await
         }
@@ -163,7 +177,9 @@ impl File {
 
     pub(crate) async fn fsyncdata(&self) -> IOResult<()> {
         let file_inner = self.inner.clone();
-        let size = self.size();
+        // Only completed writes are covered by the sync: the range of an append that is still in flight
+        // is reserved in `size` already, but its bytes can reach the file after the sync has returned
+        let size = self.written_size();
         Self::background_sync_call(
             move || {
                file_inner.std_file.sync_all()?;
@@ -186,6 +202,11 @@ impl File {
     #[cfg(feature = "async-io-rio")]
     pub(super) fn file_size_append(&self, len: u64) -> u64 {
         self.inner.size.fetch_add(len, Ordering::SeqCst)
+    }
+
+    #[cfg(feature = "async-io-rio")]
+    pub(super) fn note_written(&self, len: u64) {
+        self.inner.written_size.fetch_add(len, Ordering::SeqCst);
     }
 
     #[cfg(feature = "async-io-rio")]
@@ -255,6 +276,7 @@ impl File {
     async fn from_tokio_file(file: TokioFile) -> IOResult<Self> {
         let size = file.metadata().await?.len();
         let synced_size = AtomicU64::new(size);
+        let written_size = AtomicU64::new(size);
         let size = AtomicU64::new(size);
         let std_file = file.try_into_std().expect("tokio file into std");
 
@@ -262,6 +284,7 @@ impl File {
             inner: Arc::new(FileInner { 
                 std_file, 
                 size,
+                written_size,
                 synced_size
             })
         };
